@@ -212,7 +212,7 @@ WITNESSES = [b'', push(b'\xff'), push(b'\x00') + push(b'\xff'), push(b'\xff') + 
 def fork_case(ctx, case):
     code, pred, maxnodes = case
     name = 'OP_FORK%d' % code
-    aliases = ['FORK%d' % code, 'FK%d' % code]
+    aliases = ['FORK%d' % code, 'FK%d' % code, 'OP_FKA%d' % code]
     progs = list(fork_scripts(maxnodes, code))
     # plain VM first (nothing installed)
     plain = {}
@@ -234,6 +234,28 @@ def fork_case(ctx, case):
     snap = snapshot()
     n = 0
     try:
+        # registrations that are refused leave the code an ordinary NOP
+        for bad in ((code, 'FORK_WITHOUT_PREFIX%d' % code, make_fork_op(pred), []), (code, name, 'not callable', []),
+                    (code, 'OP_BAD NAME', make_fork_op(pred), []), (code, name, make_fork_op(pred), ['bad alias!'])):
+            n += 1
+            try:
+                T.add_soft_fork(*bad)
+                refused = False
+            except BaseException:
+                refused = True
+            if refused:
+                try:
+                    r, st, c, _ = run(b'\x01\x01' + bytes([code, 1]))
+                    ok = r is None and st == [b'\xff'] and P_.compile_script('NOP%d d1' % code) == bytes([code, 1]) and \
+                        any(('NOP%d' % code) in ln for ln in P_.decompile_script(bytes([code, 1])))
+                except BaseException as e:
+                    ok = False
+                if not ok:
+                    ctx.violation({'block': 'C', 'clause': 'a refused registration leaves the code an ordinary NOP'},
+                                  f'code {code} after add_soft_fork{tuple(type(x).__name__ if callable(x) else x for x in bad)!r}')
+                    restore(snap)
+            else:
+                restore(snap)
         try:
             T.add_soft_fork(code, name, make_fork_op(pred), aliases)
         except BaseException as e:
